@@ -1028,3 +1028,15 @@ def probes_c15(tier, seed, ci, nc):
 
 
 STREAMS['probes_c15'] = probes_c15
+
+
+def partialfwd(tier, seed, ci, nc, count=400):
+    """functools.partial over wrappers forwarding to one of their own parameters (C19, discovery branch)"""
+    rng = _rng(seed, 'partialfwd', ci)
+    univ = [s for s in U('xy', 2) if not any(p[0] in ('a', 'cb', 'target', 'args', 'kwargs') and p[1] not in ('vp', 'vk') for p in s)]
+    for k in range(count // nc):
+        tmpl = ('posparam', 'kwdefault', 'kwbound')[k % 3]
+        yield ('rt:partialfwd', tmpl, rng.choice(univ), rng.choice(univ), rng.choice([0, 0, 1]))
+
+
+STREAMS['partialfwd'] = partialfwd
